@@ -318,6 +318,10 @@ def _get_minmax_from_sparse(x_grp):
     (min_val, max_val)
     """
     data_dataset = x_grp['data']
+    if data_dataset.shape[0] == 0:
+        # no stored value: every element of the matrix is zero
+        return (0, 0)
+
     if data_dataset.chunks is None:
         data_dataset = data_dataset[()]
         return (data_dataset.min(), data_dataset.max())
